@@ -272,6 +272,8 @@ def check_variant(base_prog, base_text, ann_prog, cfg, out, meta, nonce=None):
     cnt["traces_validated"] = cnt.get("traces_validated", 0) + 1
     why = same_code(base_text, text, nonce)
     if why:
+        def ncond(t):
+            return sum(1 for l in t.split("\n") if l.strip().split(" ")[0] in ("bz", "bnz"))
         out["violations"].append({
             "driver": meta["kind"], "size": len(meta.get("text", "")),
             "title": "%s %r at %s: %s (v%d)" % (meta["kind"], meta.get("text"), meta.get("path"), why, cfg.version),
@@ -280,6 +282,9 @@ def check_variant(base_prog, base_text, ann_prog, cfg, out, meta, nonce=None):
                          "text_has_newline": "\n" in meta.get("text", ""),
                          "wrapped_is_empty_seq": bool(meta.get("wrapped_is_empty_seq")),
                          "standalone_comment": bool(meta.get("standalone_comment")),
+                         # the known block-structure findings re-route branches; they never add or drop a
+                         # CONDITIONAL branch (which pops its operand)
+                         "cond_branches_equal": ncond(base_text) == ncond(text),
                          "loop_tail": bool(meta.get("loop_tail"))},
         })
 
@@ -353,6 +358,18 @@ def base_programs(tier):
                                    ["Add", ["Load", "ctr"], ["Int", 1]]]})
     sub = {"params": [["x", "val"]], "ret": "u", "body": ["Seq", ["Assert", ["Load", "x"]], ["Return", ["Add", ["Load", "x"], ["Int", 1]]]],
            "locals": [], "init_locals": False}
+    # a conditional with EMPTY arms as the last statement of a loop body (both outcomes lead back to the loop head):
+    # annotations are then the only content of an arm
+    inc = ["Store", "ctr", ["Add", ["Load", "ctr"], ["Int", 1]]]
+    for arms in ([["Seq"]], [["Seq"], ["Seq"]], [["Seq", ["Seq"]]]):
+        for loop in ("While", "For"):
+            tail_if = ["If", cin] + [list(a) for a in arms]
+            if loop == "While":
+                lp = ["While", ["Lt", ["Load", "ctr"], ["Int", 2]], ["Seq", inc, tail_if]]
+            else:
+                lp = ["For", ["Store", "i", ["Int", 0]], ["Lt", ["Load", "i"], ["Int", 2]], ["Seq"], ["Seq", ["Store", "i", ["Add", ["Load", "i"], ["Int", 1]]], tail_if]]
+            progs.append({"mode": "A", "vars": {"ctr": "u", "i": "u"}, "subs": {},
+                          "main": ["Seq", ["Store", "ctr", ["Int", 0]], lp, ["Add", ["Load", "ctr"], ["Int", 1]]]})
     # two DIFFERENT subroutines: the subname variants give both the same name (names are annotations, the call
     # targets must not depend on them)
     sub2 = {"params": [["x", "val"]], "ret": "u", "body": ["Seq", ["Return", ["Mul", ["Load", "x"], ["Int", 3]]]],
